@@ -269,6 +269,9 @@ func (s *Sender) OnDisconnect(ctx context.Context, p peer.ID) { s.Disconnects++ 
 const (
 	BHonest     = "honest"         // K nearest peers of its knowledge (never requester)
 	BAll        = "all"            // everything it knows
+	// BAllThenFail answers its first three requests like BAll and fails every later one (a peer that
+	// breaks down in the middle of being crawled).
+	BAllThenFail = "all-then-fail"
 	BListsSelf  = "lists-self"     // honest + itself
 	BListsReq   = "lists-req"      // honest + the requester
 	BListsFar   = "lists-far"      // honest + a peer nobody else knows (far, undialable)
@@ -299,6 +302,8 @@ type Peer struct {
 	PutBehaviour string
 	GotPuts      []*pb.Message
 	GotProvs     []*pb.Message
+	// Requests counts the requests answered so far (BAllThenFail).
+	Requests int
 }
 
 // World describes the simulated network.
@@ -387,7 +392,7 @@ func (w *World) CloserIDs(to peer.ID, key string) []peer.ID {
 		honest = honest[:w.K]
 	}
 	switch p.Behaviour {
-	case BAll:
+	case BAll, BAllThenFail:
 		return SortByDistance(known, key)
 	case BListsSelf:
 		return append(append([]peer.ID{}, honest...), to)
@@ -427,9 +432,14 @@ func (w *World) Answer(to peer.ID, m *pb.Message, proto string) (*pb.Message, er
 	if p == nil {
 		return nil, ErrSimRequest
 	}
+	p.Requests++
 	switch p.Behaviour {
 	case BReqFail:
 		return nil, ErrSimRequest
+	case BAllThenFail:
+		if p.Requests > 3 {
+			return nil, ErrSimRequest
+		}
 	case BSilent:
 		return nil, ErrSimTimeout
 	}
